@@ -35,6 +35,8 @@ def seqShowV : V → String
   | .bool b => s!"(bool {b})"
   | .opt none => "(none)"
   | .opt (some v) => "(some " ++ seqShowVal v ++ ")"
+  | .stack vs => "(stack" ++ seqShowVals vs.reverse ++ ")"
+  | .opaque => "?"
   | .err m => "ERR:" ++ m
   | .panic m => "PANIC:" ++ m
 
@@ -50,10 +52,10 @@ def seq1 (env : Array V) (i : String) (k : Rep → V) : V :=
 
 def seqInts (xs : List String) : Option (List Int) := xs.mapM String.toInt?
 
-/-- `zip(a0, a1, …)`: each argument is evaluated in turn; an `Empty` one returns before the rest is evaluated -/
+/-- `zip(a0, a1, …)`: every argument is evaluated (the first error value wins), then the emptiness shortcut -/
 def seqZip (env : Array V) : List String → List Rep → V
-  | [], acc => .seq (.zip acc.reverse)
-  | i :: is, acc => seq1 env i fun r => if r.isEmpty then .seq .empty else seqZip env is (r :: acc)
+  | [], acc => zipB acc.reverse
+  | i :: is, acc => seq1 env i fun r => seqZip env is (r :: acc)
 
 def seqNode (env : Array V) (op : String) (args : List String) : V :=
   match op, args with
@@ -64,6 +66,7 @@ def seqNode (env : Array V) (op : String) (args : List String) : V :=
       | some vs => rangeB vs
       | none => .panic "bad-op")
   | "count", [] => .seq .count
+  | "opaque", _ => .opaque
   | "count2", [s, o] => (match seqInts [s, o] with
       | some [s, o] => .seq (count2 s o)
       | _ => .panic "bad-op")
@@ -73,6 +76,8 @@ def seqNode (env : Array V) (op : String) (args : List String) : V :=
   | "isinf", [i] => seq1 env i isInfiniteB
   | "rev", [i] => seq1 env i reverseB
   | "rep", [i] => seq1 env i repeatB
+  | "tostack", [i] => seq1 env i toStackB
+  | "eq", [i, j, fuel] => seq1 env i fun a => seq1 env j fun b => eqB a b fuel.toNat!
   | "zip", is => seqZip env is []
   | f, i :: xs =>
     (match seqInts xs with
@@ -92,6 +97,7 @@ def seqNode (env : Array V) (op : String) (args : List String) : V :=
        | "enum", [s, o] => enumerateB r s o
        | "unzip", [k] => unzipB r k.toNat
        | "repn", [n] => repeatNB r n
+       | "nth", [n, c, fuel] => nthLtB r n c fuel.toNat
        | "tw", [c, fuel] => takeWhileLtB r c fuel.toNat
        | "su", [c, fuel] => skipUntilLtB r c fuel.toNat
        | _, _ => .panic "bad-op")
